@@ -549,6 +549,17 @@ Section Monitors2.
     | _, _ => VNa
     end.
 
+  (* C10 — no panic, a definite outcome, and an error only when an origin call of this exchange failed *)
+  Definition mon_C10 : verdict :=
+    match x_result o with
+    | Crashed | Done OPanic => VBad 1
+    | OutOfModel => VNa
+    | Done OErr =>
+        if existsb (fun cl => match cl with (_, _, _, _, RErr) => true | _ => false end) (fg_calls o)
+        then VOk else VBad 2
+    | Done (OResp _) => if x_bg_ok o then VOk else VBad 3
+    end.
+
   (* C09 — a fresh, matching, live entry must be served from the store *)
   Fixpoint latest_store (rev_past : hist) : option (request * bytes * stored_entry) :=
     match rev_past with
@@ -671,7 +682,7 @@ Fixpoint monitor_all_from (script : list (Z * origin_reply * origin_reply)) (pas
         (bs "C03", mon_C03 script past q o); (bs "C04", mon_C04 script past q o);
         (bs "C05", mon_C05 script past o); (bs "C06", mon_C06 script q o);
         (bs "C07", mon_C07 script past q o); (bs "C08", mon_C08 script past q o);
-        (bs "C09", mon_C09 script past q o); (bs "C11", mon_C11 script past o);
+        (bs "C09", mon_C09 script past q o); (bs "C10", mon_C10 o); (bs "C11", mon_C11 script past o);
         (bs "C13", mon_C13 script past q o); (bs "C18", mon_C18 script prefix q o);
         (bs "C19", mon_C19 past q o)])
       :: monitor_all_from script (past ++ [(q, o)]) r
